@@ -465,9 +465,11 @@ def cbmc_job(u, sp, job, workdir, tier):
     if not real:
         res["reason"] = "vacuous job: zero obligations"
         return res
-    unreached = [o for o in covers if o["status"] != "FAILURE"]
+    # a cover *name* is reached when at least one cover point carrying it is reachable with its condition true
+    reached = set(o["description"] for o in covers if o["status"] == "FAILURE")
+    unreached = sorted(set(o["description"] for o in covers) - reached)
     if unreached:
-        res["reason"] = "vacuity guard: cover point(s) unreachable: " + "; ".join(o["description"] for o in unreached)
+        res["reason"] = "vacuity guard: cover point(s) unreachable: " + "; ".join(unreached)
         res["status"] = "UNDECIDED"
         return res
     failed = [o for o in real if o["status"] != "SUCCESS"]
